@@ -19,15 +19,23 @@
 //   args.rot.prove.<mode>   p q g h r [s] [alpha] [c] [coins] [peer] [log] [crs] tag => verdict [sent]
 //   args.rot.verify.<mode>  p q g h [alpha] [c] [coins] [peer] trunc [log] [crs] tag => verdict [sent]
 //   args.hoogh.witness [idx:r,…] => r [R]        (witness derived by TMCG_ProveStackEquality_Hoogh)
+//   args.groth.prove.<mode>  p q g h le [cg] [pi] [R] [e] [E] [coins] [peer] [log] [crs] tag => verdict [sent]
+//   args.groth.verify.<mode> p q g h le [cg] [e] [E] [coins] [peer] trunc [log] [crs] tag => verdict [sent]
+//   args.groth.witness [idx:r,…] => [pi] [R]     (witness derived by TMCG_ProveStackEquality_Groth)
+//   le = challenge length l_e, [cg] = commitment generators g_1..g_n (the commitment's h is the key h);
+//   the Groth verifier's [coins] are the values of its tmcg_mpz_srandomb draws (t_i, lambda, x, e — redrawn
+//   while zero —, and the batch-verification alpha) resp. of the flips' srandomm draws.
 //   <mode> = interactive | publiccoin | noninteractive;  [coins] = the values of the party's
 //   tmcg_mpz_srandomm draws in draw order (the 8-byte draws of Flip_twoparty are not listed);
 //   trunc = 1: the peer's last line has no newline.
 // Tags: honest; cheat:<false statement>; mut:<field>:<how> (one transmitted value or statement component
 // changed); equiv:<field>:<how> (another representative of the same value: must be accepted);
 // lucky:<what> (a false statement with the one challenge value that lets it pass: soundness error made
-// visible, expected 1); peer-silent.
+// visible, expected 1); unlucky:<what> (a TRUE statement and an honest prover whose coins make the verifier
+// refuse: completeness error made visible, expected 0); peer-silent / peer-stops.
 #include "common.hh"
 #include <memory>
+#include <algorithm>
 #include <unistd.h>
 #include <sys/wait.h>
 #include <signal.h>
@@ -77,6 +85,9 @@ struct Env {
 	// group of the coin flip
 	Z cp, cq, cg, ch; unsigned cpb, cqb; bool own_crs;
 	std::unique_ptr<JareckiLysyanskayaEDCF> eP, eV;
+	bool flips_possible = true;
+	unsigned rb_bits = 0;   // != 0: the party's non-flip draws are tmcg_mpz_srandomb(·, rb_bits)
+	unsigned le = 0; std::unique_ptr<GrothVSSHE> gP, gV;
 	mpz_srcptr p() const { return A->p; } mpz_srcptr q() const { return A->q; }
 	std::string pqgh() const { return zs(A->p) + " " + zs(A->q) + " " + zs(A->g) + " " + zs(A->h); }
 	std::string crs(int mode) const { return mode == PC ? "[" + cp.str() + "," + cq.str() + "," + cg.str() + "," + ch.str() + "]" : std::string("[]"); }
@@ -109,12 +120,15 @@ const int NMUT = 13;
 
 std::string b2s(bool b) { return b ? "1" : "0"; }
 
-void make_env(Env &c, SplitMix &g, uint64_t idx, bool thorough, size_t n)
+void make_env(Env &c, SplitMix &g, uint64_t idx, bool thorough, size_t n, bool groth = false)
 {
 	static const unsigned sz[5][2] = { { 64, 32 }, { 96, 48 }, { 128, 64 }, { 192, 96 }, { 256, 160 } };
 	unsigned k = g.below(thorough ? 5 : 4);
 	if (n >= 32 && !thorough) k = g.below(2);
 	c.pbits = sz[k][0]; c.qbits = sz[k][1];
+	if (groth) { // the challenge length needs |q| >= 2 l_e + 64
+		static const unsigned gz[3][2] = { { 192, 112 }, { 224, 128 }, { 256, 160 } };
+		k = g.below(n >= 32 && !thorough ? 1 : 3); c.pbits = gz[k][0]; c.qbits = gz[k][1]; }
 	c.sg = make_group(g, c.pbits, c.qbits);
 	std::ostringstream os; os << c.sg.p.v << std::endl << c.sg.q.v << std::endl << c.sg.g.v << std::endl << c.sg.k.v << std::endl;
 	std::istringstream i1(os.str()), i2(os.str());
@@ -181,8 +195,10 @@ Side run_side(const Env &c, const std::function<std::string(std::istream &, std:
 	r.coins = "["; int flip = 0; bool first = true;
 	for (auto &e : es) {
 		r.raw.insert(r.raw.end(), e.bytes.begin(), e.bytes.end());
-		if (e.bytes.size() == 8) { flip = 2; continue; }   // tmcg_mpz_wrandom_ui of Flip_twoparty (value unused)
-		Z v; if (flip > 0) { coin_mod(v, e, c.cq); flip--; } else coin_mod(v, e, c.A->q);
+		if (e.bytes.size() == 8 && c.flips_possible) { flip = 2; continue; }   // tmcg_mpz_wrandom_ui of Flip_twoparty (value unused)
+		Z v; if (flip > 0) { coin_mod(v, e, c.cq); flip--; }
+		else if (c.rb_bits) { mpz_import(v, e.bytes.size(), 1, 1, 1, 0, e.bytes.data()); mpz_tdiv_r_2exp(v, v, c.rb_bits); }
+		else coin_mod(v, e, c.A->q);
 		if (!first) r.coins += ","; first = false; r.coins += v.str();
 	}
 	r.coins += "]";
@@ -215,8 +231,9 @@ Chal make_chal(const Env &c, SplitMix &g, int mode, size_t count, const ZV *forc
 	return ch;
 }
 
+void wrapper_checks_fwd(struct Env &c, SplitMix &g, bool groth, struct Stmt &st, TMCG_Stack<VTMF_Card> &s, TMCG_Stack<VTMF_Card> &s2, TMCG_StackSecret<VTMF_CardSecret> &ss);
 // ---------------------------------------------------------------- rotation statements
-struct Stmt { size_t n, r; ZV R, X1, X2, Y1, Y2; };
+struct Stmt { size_t n, r; std::vector<size_t> pi; ZV R, X1, X2, Y1, Y2; };
 
 // names of the prover's lines, in order
 std::vector<std::pair<std::string, size_t> > vrhe_fields(int mode, size_t n)
@@ -288,14 +305,14 @@ size_t vrhe_nchal(size_t n) { return 2 * n + 2; }
 
 // builds (X, Y, witness) from a real stack, a stack secret with index component `pi`, and the real mixing
 void build_stmt(Env &c, SplitMix &g, SchindelhauerTMCG &tm, const std::vector<size_t> &pi, Stmt &st, TMCG_Stack<VTMF_Card> &s, TMCG_Stack<VTMF_Card> &s2,
-	TMCG_StackSecret<VTMF_CardSecret> &ss, bool fresh_stack)
+	TMCG_StackSecret<VTMF_CardSecret> &ss, bool fresh_stack, bool groth = false)
 {
 	size_t n = pi.size();
 	if (fresh_stack) {
 		s.clear();
 		for (size_t i = 0; i < n; i++) {
 			VTMF_Card cd; VTMF_CardSecret cs;
-			if (g.below(5) == 0) tm.TMCG_CreateOpenCard(cd, c.A.get(), i); else   // open cards pairwise different: a swap of equal cards is no false statement
+			if (g.below(5) == 0) tm.TMCG_CreateOpenCard(cd, c.A.get(), i + 1); else   // open cards pairwise different and not the neutral ciphertext (1, 1): a swap of equal cards is no false statement
 			 tm.TMCG_CreatePrivateCard(cd, cs, c.A.get(), g.below(64));
 			s.push(cd);
 		}
@@ -305,12 +322,13 @@ void build_stmt(Env &c, SplitMix &g, SchindelhauerTMCG &tm, const std::vector<si
 	tm.TMCG_MixStack(s, s2, ss, c.A.get());
 	std::vector<mpz_ptr> R; PairVec e, E;
 	tm.TMCG_InitializeStackEquality_Hoogh(R, e, E, s, s2, ss);
-	st.n = n; st.r = (ss.size() - ss[0].first) % ss.size();
+	st.n = n; st.r = (ss.size() - ss[0].first) % ss.size(); st.pi.resize(n); for (size_t i = 0; i < n; i++) st.pi[i] = ss[i].first;
 	st.R.assign(n, Z()); st.X1.assign(n, Z()); st.X2.assign(n, Z()); st.Y1.assign(n, Z()); st.Y2.assign(n, Z());
 	for (size_t i = 0; i < n; i++) { mpz_set(st.R[i], R[i]); mpz_set(st.X1[i], e[i].first); mpz_set(st.X2[i], e[i].second); mpz_set(st.Y1[i], E[i].first); mpz_set(st.Y2[i], E[i].second); }
 	tm.TMCG_ReleaseStackEquality_Hoogh(R, e, E);
 	std::string sec = "["; for (size_t i = 0; i < n; i++) { if (i) sec += ","; sec += std::to_string(ss[i].first) + ":" + zs(ss[i].second.r); } sec += "]";
-	emit("args.hoogh.witness " + sec + " => " + std::to_string(st.r) + " " + zlist(st.R));
+	if (groth) { std::string ps = "["; for (size_t i = 0; i < n; i++) { if (i) ps += ","; ps += std::to_string(st.pi[i]); } emit("args.groth.witness " + sec + " => " + ps + "] " + zlist(st.R)); }
+	else emit("args.hoogh.witness " + sec + " => " + std::to_string(st.r) + " " + zlist(st.R));
 	coins.take(); oracle_log();
 }
 
@@ -343,8 +361,9 @@ void vrhe_mode(Env &c, SplitMix &g, int mode, Stmt &st, const std::string &tag0,
 		emit_vrhe_verify(c, mode, st, L, false, W, tag);
 	}
 	if (cheat) return;
+	bool big = n >= 16 && !thorough;
 	// ---- the other representative x - q of an exponent (|x| < q is all the verifier asks for)
-	for (size_t m = 0; m < 3; m++) {
+	for (size_t m = 0; m < (big ? 1 : 3); m++) {
 		size_t pos = g.below(fields.size());
 		for (size_t tries = 0; tries < 4 * fields.size() && !(is_exponent_field(fields[pos].first) && fields[pos].first.compare(0, 4, "flip")); tries++) pos = (pos + 1) % fields.size();
 		if (!is_exponent_field(fields[pos].first) || !fields[pos].first.compare(0, 4, "flip")) break;
@@ -356,7 +375,7 @@ void vrhe_mode(Env &c, SplitMix &g, int mode, Stmt &st, const std::string &tag0,
 		emit_vrhe_verify(c, mode, st, L, false, W, (same ? "equiv:" : "mut:") + fields[pos].first + ":minusq");
 	}
 	// ---- statement components
-	for (size_t m = 0; m < (nmut + 1) / 2; m++) {
+	for (size_t m = 0; m < (big ? 1 : (nmut + 1) / 2); m++) {
 		int which = (int)g.below(4); size_t i = g.below(n); int how = (int)g.below(NMUT);
 		Stmt t = st; ZV &tgt = which == 0 ? t.X1 : which == 1 ? t.X2 : which == 2 ? t.Y1 : t.Y2; std::string nm;
 		if (!mutate(g, how, tgt[i], c, nm)) continue;
@@ -368,7 +387,7 @@ void vrhe_mode(Env &c, SplitMix &g, int mode, Stmt &st, const std::string &tag0,
 		emit_vrhe_verify(c, mode, t, P.lines, false, W, tag);
 	}
 	// ---- stream defects
-	{
+	if (!(big && mode == NI)) {
 		std::string t = join_lines(P.lines); t.pop_back();
 		Side W = vrhe_verify(c, mode, st, t, ch.script); emit_vrhe_verify(c, mode, st, P.lines, true, W, "mut:stream:no-final-newline");
 		std::vector<std::string> L = P.lines; L.push_back("17");
@@ -393,8 +412,9 @@ void vrhe_case(Env &c, SplitMix &g, size_t n, uint64_t cidx, bool thorough)
 	std::vector<size_t> pi(n); for (size_t i = 0; i < n; i++) pi[i] = (i + n - r) % n;
 	build_stmt(c, g, tm, pi, st, s, s2, ss, true);
 	if (st.r != r) { emit("prop.args.rotation-index " + std::to_string(st.r) + " " + std::to_string(r) + " => mismatch"); return; }
-	size_t nmut = thorough ? 40 : (n >= 16 ? 4 : 10);
+	size_t nmut = thorough ? 40 : (n >= 32 ? 2 : n >= 16 ? 3 : 10);
 	for (int mode = 0; mode < 3; mode++) vrhe_mode(c, g, mode, st, "honest", false, nmut, thorough);
+	if (n <= 9 || thorough) wrapper_checks_fwd(c, g, false, st, s, s2, ss);
 	// every rotation of a small stack, non-interactive
 	if (n <= 5 || thorough) for (size_t r2 = 0; r2 < n; r2++) {
 		if (r2 == r) continue;
@@ -405,6 +425,7 @@ void vrhe_case(Env &c, SplitMix &g, size_t n, uint64_t cidx, bool thorough)
 	// ---- false statements (C04), proved with the honest algorithm and the witness that does not fit
 	for (size_t i = 0; i < n; i++) pi[i] = (i + n - r) % n;
 	for (int what = 0; what < 5; what++) {
+		if (n >= 16 && !thorough && what != (int)(cidx % 5) && what != 0) continue;
 		Stmt t = st; std::string tag; size_t j = g.below(n), j2 = (j + 1 + g.below(n - 1)) % n;
 		if (what == 0) { VTMF_Card cd; VTMF_CardSecret cs; tm.TMCG_CreatePrivateCard(cd, cs, c.A.get(), 64 + g.below(64)); mpz_set(t.Y1[j], cd.c_1); mpz_set(t.Y2[j], cd.c_2); tag = "cheat:replaced-card"; }
 		else if (what == 1) { if (n < 3) continue; std::swap(t.Y1[j], t.Y1[j2]); std::swap(t.Y2[j], t.Y2[j2]); tag = "cheat:swapped-cards"; }
@@ -413,7 +434,7 @@ void vrhe_case(Env &c, SplitMix &g, size_t n, uint64_t cidx, bool thorough)
 		else if (what == 3) { mpz_set(t.Y1[j], t.Y1[j2]); mpz_set(t.Y2[j], t.Y2[j2]); tag = "cheat:duplicated-card"; }
 		else { mpz_mul(t.Y2[j], t.Y2[j], c.A->g); mpz_mod(t.Y2[j], t.Y2[j], c.A->p); tag = "cheat:retyped-card"; }
 		coins.take(); oracle_log();
-		vrhe_mode(c, g, (int)((cidx + what) % 3), t, tag, true, n >= 16 ? 0 : 2, false);
+		vrhe_mode(c, g, (n >= 16 && !thorough) ? (int)((cidx + what) % 2) : (int)((cidx + what) % 3), t, tag, true, n >= 16 ? 0 : 2, false);
 		// the soundness error made visible (interactive mode, challenges chosen by the harness): with every
 		// alpha_i = 0 the argument does not look at the statement at all
 		if (what == 0 && cidx % 2 == 0) {
@@ -424,6 +445,258 @@ void vrhe_case(Env &c, SplitMix &g, size_t n, uint64_t cidx, bool thorough)
 			mpz_set_ui(force[(j + n - r) % n], 0);
 			vrhe_mode(c, g, INTER, t, "lucky:alpha-zero-at-replaced", true, 0, false, &force);
 		}
+	}
+}
+
+
+// ================================================================ Groth's shuffle argument
+void make_groth(Env &c, size_t n)
+{
+	c.le = (c.qbits - 64) / 2;
+	c.gP.reset(new GrothVSSHE(n, c.A->p, c.A->q, c.A->k, c.A->g, c.A->h, c.le, c.pbits, c.qbits));
+	std::ostringstream pg; c.gP->PublishGroup(pg); std::istringstream is(pg.str());
+	c.gV.reset(new GrothVSSHE(n, is, c.le, c.pbits, c.qbits));
+	coins.take(); oracle_log();
+}
+std::string groth_hdr(Env &c)
+{
+	std::string gs = "["; for (size_t i = 0; i < c.gP->com->g.size(); i++) { if (i) gs += ","; gs += zs(c.gP->com->g[i]); }
+	return c.pqgh() + " " + std::to_string(c.le) + " " + gs + "]";
+}
+void script_bits(std::vector<unsigned char> &script, mpz_srcptr v, unsigned bits)
+{
+	size_t n = (bits + 7) / 8; std::vector<unsigned char> b(n, 0), tmp(n + 8, 0); size_t cnt = 0;
+	mpz_export(tmp.data(), &cnt, 1, 1, 1, 0, v); memcpy(b.data() + (n - cnt), tmp.data(), cnt);
+	script.insert(script.end(), b.begin(), b.end());
+}
+// verifier coins of one Groth run: t_1..t_n, lambda, x, e (not zero), and the batch-verification alpha
+Chal make_gchal(const Env &c, SplitMix &g, int mode, size_t n, const ZV *force = NULL)
+{
+	Chal ch; unsigned l = c.le;
+	if (mode == INTER) {
+		for (size_t i = 0; i < n + 3; i++) {
+			Z v; if (force) mpz_set(v, (*force)[i]); else { gen_bits(v, g, l); if (i == n + 2 && !mpz_sgn(v)) mpz_set_ui(v, 1); }
+			ch.vals.push_back(v); script_bits(ch.script, v, l); ch.lines.push_back(b62(v));
+		}
+	} else if (mode == PC) { Chal f = make_chal(c, g, PC, n + 3); ch = f; }
+	Z alpha; gen_bits(alpha, g, mode == NI ? 2 * l : l); script_bits(ch.script, alpha, mode == NI ? 2 * l : l);
+	return ch;
+}
+std::vector<std::pair<std::string, size_t> > groth_fields(int mode, size_t n)
+{
+	std::vector<std::pair<std::string, size_t> > f;
+	auto flip = [&](size_t k) { if (mode == PC) { f.push_back({ "flipC", k }); f.push_back({ "flipa", k }); f.push_back({ "fliph", k }); } };
+	f.push_back({ "c", 0 }); f.push_back({ "cd", 0 }); f.push_back({ "Ed1", 0 }); f.push_back({ "Ed2", 0 });
+	for (size_t i = 0; i < n; i++) flip(i);
+	for (size_t i = 0; i < n; i++) f.push_back({ "f", i });
+	f.push_back({ "Z", 0 });
+	flip(n); flip(n + 1);
+	f.push_back({ "skc_cd", 0 }); f.push_back({ "skc_cDelta", 0 }); f.push_back({ "skc_ca", 0 });
+	flip(n + 2);
+	for (size_t i = 0; i < n; i++) f.push_back({ "skc_f", i });
+	f.push_back({ "skc_z", 0 });
+	for (size_t i = 0; i + 1 < n; i++) f.push_back({ "skc_fDelta", i });
+	f.push_back({ "skc_zDelta", 0 });
+	return f;
+}
+Side groth_prove(Env &c, int mode, Stmt &st, const std::string &input, const std::vector<unsigned char> &script = std::vector<unsigned char>())
+{
+	std::vector<mpz_ptr> R = ptrs(st.R); PairVec X = pairs(st.X1, st.X2), Y = pairs(st.Y1, st.Y2);
+	c.rb_bits = 0; c.flips_possible = (mode == PC);
+	Side r = run_side(c, [&](std::istream &in, std::ostream &out) {
+		if (mode == INTER) c.gP->Prove_interactive(st.pi, R, X, Y, in, out);
+		else if (mode == PC) c.gP->Prove_interactive_publiccoin(st.pi, R, X, Y, c.eP.get(), in, out);
+		else c.gP->Prove_noninteractive(st.pi, R, X, Y, out);
+		return std::string("1"); }, input, script);
+	c.flips_possible = true; return r;
+}
+Side groth_verify(Env &c, int mode, Stmt &st, const std::string &input, const std::vector<unsigned char> &script)
+{
+	PairVec X = pairs(st.X1, st.X2), Y = pairs(st.Y1, st.Y2);
+	c.rb_bits = (mode == NI) ? 2 * c.le : c.le; c.flips_possible = (mode == PC);
+	Side r = run_side(c, [&](std::istream &in, std::ostream &out) {
+		bool ok;
+		if (mode == INTER) ok = c.gV->Verify_interactive(X, Y, in, out);
+		else if (mode == PC) ok = c.gV->Verify_interactive_publiccoin(X, Y, c.eV.get(), in, out);
+		else ok = c.gV->Verify_noninteractive(X, Y, in);
+		return b2s(ok); }, input, script);
+	c.rb_bits = 0; c.flips_possible = true; return r;
+}
+void emit_groth_prove(Env &c, int mode, Stmt &st, const std::vector<std::string> &peer, const Side &s, const std::string &tag)
+{
+	std::string ps = "["; for (size_t i = 0; i < st.n; i++) { if (i) ps += ","; ps += std::to_string(st.pi[i]); } ps += "]";
+	emit(std::string("args.groth.prove.") + mode_name[mode] + " " + groth_hdr(c) + " " + ps + " " + zlist(st.R) + " " + cards(st.X1, st.X2) + " " + cards(st.Y1, st.Y2) +
+		" " + s.coins + " " + dec_lines(peer) + " " + s.log + " " + c.crs(mode) + " tag:" + tag + " => " + s.verdict + " " + dec_lines(s.lines));
+}
+void emit_groth_verify(Env &c, int mode, Stmt &st, const std::vector<std::string> &peer, bool trunc, const Side &s, const std::string &tag)
+{
+	emit(std::string("args.groth.verify.") + mode_name[mode] + " " + groth_hdr(c) + " " + cards(st.X1, st.X2) + " " + cards(st.Y1, st.Y2) +
+		" " + s.coins + " " + dec_lines(peer) + " " + b2s(trunc) + " " + s.log + " " + c.crs(mode) + " tag:" + tag + " => " + s.verdict + " " + dec_lines(s.lines));
+}
+bool groth_exp_field(const std::string &f) { return f == "f" || f == "Z" || f == "skc_f" || f == "skc_z" || f == "skc_fDelta" || f == "skc_zDelta"; }
+
+void groth_mode(Env &c, SplitMix &g, int mode, Stmt &st, const std::string &tag0, bool cheat, size_t nmut, bool thorough, const ZV *force = NULL,
+	const std::vector<unsigned char> *pscript = NULL)
+{
+	size_t n = st.n;
+	Chal ch = make_gchal(c, g, mode, n, force);
+	Side P = groth_prove(c, mode, st, join_lines(ch.lines), pscript ? *pscript : std::vector<unsigned char>());
+	emit_groth_prove(c, mode, st, ch.lines, P, tag0);
+	Side V = groth_verify(c, mode, st, join_lines(P.lines), ch.script);
+	emit_groth_verify(c, mode, st, P.lines, false, V, tag0);
+	if (mode != NI && V.lines != ch.lines && tag0 == "honest")
+		emit(std::string("prop.args.predicted-verifier-lines groth ") + mode_name[mode] + " " + std::to_string(n) + " => mismatch");
+	if (force || pscript) return;
+	std::vector<std::pair<std::string, size_t> > fields = groth_fields(mode, n);
+	if (P.lines.size() != fields.size()) { emit("prop.args.transcript-length groth " + std::to_string(P.lines.size()) + " " + std::to_string(fields.size()) + " => mismatch"); return; }
+	ZV vals = values_of(P.lines);
+	for (size_t m = 0; m < nmut; m++) {
+		size_t pos = g.below(fields.size()); int how = (int)g.below(NMUT);
+		if (thorough && m < fields.size()) pos = m;
+		Z v; mpz_set(v, vals[pos]); std::string nm;
+		if (!mutate(g, how, v, c, nm)) continue;
+		std::vector<std::string> L = P.lines; L[pos] = b62(v);
+		std::string tag = cheat ? tag0 + "+mut" : "mut:" + fields[pos].first + ":" + nm;
+		// E_d is only used modulo p (no range check): E_d + p is the same value unless it is hashed
+		if (!cheat && nm == "plusp" && mode != NI && (fields[pos].first == "Ed1" || fields[pos].first == "Ed2")) tag = "equiv:" + fields[pos].first + ":plusp";
+		Side W = groth_verify(c, mode, st, join_lines(L), ch.script);
+		emit_groth_verify(c, mode, st, L, false, W, tag);
+	}
+	if (cheat) return;
+	bool big = n >= 16 && !thorough;
+	// ---- x - q: the checks are `x < q` only (no lower bound)
+	for (size_t m = 0; m < (big ? 1 : 4); m++) {
+		size_t pos = g.below(fields.size());
+		for (size_t tries = 0; tries < 2 * fields.size() && !groth_exp_field(fields[pos].first); tries++) pos = (pos + 1) % fields.size();
+		if (!groth_exp_field(fields[pos].first)) break;
+		Z v; mpz_sub(v, vals[pos], c.A->q);
+		std::vector<std::string> L = P.lines; L[pos] = b62(v);
+		const std::string &fn = fields[pos].first;
+		// Z must be positive; f enters the hash of lambda in the non-interactive mode; v = 0 gives -q (|v| needs one more table entry)
+		bool same = fn != "Z" && !(mode == NI && fn == "f") && mpz_sgn(vals[pos]) != 0;
+		Side W = groth_verify(c, mode, st, join_lines(L), ch.script);
+		emit_groth_verify(c, mode, st, L, false, W, (same ? "equiv:" : "mut:") + fn + ":minusq");
+	}
+	// ---- statement components
+	for (size_t m = 0; m < (big ? 1 : (nmut + 1) / 2); m++) {
+		int which = (int)g.below(4); size_t i = g.below(n); int how = (int)g.below(NMUT);
+		Stmt t = st; ZV &tgt = which == 0 ? t.X1 : which == 1 ? t.X2 : which == 2 ? t.Y1 : t.Y2; std::string nm;
+		if (!mutate(g, how, tgt[i], c, nm)) continue;
+		static const char *fn[4] = { "e1", "e2", "E1", "E2" };
+		std::string tag = std::string("mut:") + fn[which] + ":" + nm;
+		if (nm == "plusp" && mode != NI) tag = std::string("equiv:") + fn[which] + ":plusp";
+		Side W = groth_verify(c, mode, t, join_lines(P.lines), ch.script);
+		emit_groth_verify(c, mode, t, P.lines, false, W, tag);
+	}
+	// ---- stream defects
+	if (!(big && mode == NI)) {
+		std::string t = join_lines(P.lines); t.pop_back();
+		Side W = groth_verify(c, mode, st, t, ch.script); emit_groth_verify(c, mode, st, P.lines, true, W, "mut:stream:no-final-newline");
+		std::vector<std::string> L = P.lines; L.push_back("17");
+		W = groth_verify(c, mode, st, join_lines(L), ch.script); emit_groth_verify(c, mode, st, L, false, W, "equiv:stream:trailing-line");
+		L = P.lines; L.pop_back();
+		W = groth_verify(c, mode, st, join_lines(L), ch.script); emit_groth_verify(c, mode, st, L, false, W, "mut:stream:last-line-missing");
+		L = P.lines; size_t pos = g.below(L.size()); L[pos] = "#" + L[pos];
+		W = groth_verify(c, mode, st, join_lines(L), ch.script); emit_groth_verify(c, mode, st, L, false, W, "mut:" + fields[pos].first + ":unparsable");
+		if (mode != NI) {
+			std::vector<std::string> none; Side Q = groth_prove(c, mode, st, "", P.raw); emit_groth_prove(c, mode, st, none, Q, "peer-silent");
+			std::vector<std::string> half(ch.lines.begin(), ch.lines.begin() + ch.lines.size() / 2);
+			Q = groth_prove(c, mode, st, join_lines(half), P.raw); emit_groth_prove(c, mode, st, half, Q, "peer-stops");
+		}
+	}
+}
+
+void groth_case(Env &c, SplitMix &g, size_t n, uint64_t cidx, bool thorough)
+{
+	make_groth(c, n);
+	SchindelhauerTMCG tm(16, 2, 8);
+	TMCG_Stack<VTMF_Card> s, s2; TMCG_StackSecret<VTMF_CardSecret> ss; Stmt st;
+	std::vector<size_t> pi(n); for (size_t i = 0; i < n; i++) pi[i] = i;
+	if (cidx % 5 != 0) for (size_t i = n - 1; i > 0; i--) std::swap(pi[i], pi[g.below(i + 1)]);     // cidx % 5 == 0: the identity
+	if (cidx % 5 == 1) for (size_t i = 0; i < n; i++) pi[i] = n - 1 - i;                              // the reversal
+	build_stmt(c, g, tm, pi, st, s, s2, ss, true, true);
+	size_t nmut = thorough ? 40 : (n >= 32 ? 2 : n >= 16 ? 3 : 10);
+	for (int mode = 0; mode < 3; mode++) groth_mode(c, g, mode, st, "honest", false, nmut, thorough);
+	if (n <= 9 || thorough) wrapper_checks_fwd(c, g, true, st, s, s2, ss);
+	// every permutation of a small stack (n <= 3), non-interactive
+	if (n <= 3) { std::vector<size_t> p2(n); for (size_t i = 0; i < n; i++) p2[i] = i;
+		do { if (p2 == pi) continue; Stmt t; build_stmt(c, g, tm, p2, t, s, s2, ss, false, true); groth_mode(c, g, (int)(cidx % 3), t, "honest", false, 0, false); } while (std::next_permutation(p2.begin(), p2.end())); }
+	// ---- false statements (C04)
+	for (int what = 0; what < 4; what++) {
+		if (n >= 16 && !thorough && what != (int)(cidx % 4) && what != 0) continue;
+		Stmt t = st; std::string tag; size_t j = g.below(n), j2 = (j + 1 + g.below(n - 1)) % n;
+		if (what == 0) { VTMF_Card cd; VTMF_CardSecret cs; tm.TMCG_CreatePrivateCard(cd, cs, c.A.get(), 64 + g.below(64)); mpz_set(t.Y1[j], cd.c_1); mpz_set(t.Y2[j], cd.c_2); tag = "cheat:substituted-card"; }
+		else if (what == 1) { mpz_set(t.Y1[j], t.Y1[j2]); mpz_set(t.Y2[j], t.Y2[j2]); tag = "cheat:duplicated-card"; }
+		else if (what == 2) { mpz_mul(t.Y2[j], t.Y2[j], c.A->g); mpz_mod(t.Y2[j], t.Y2[j], c.A->p); tag = "cheat:retyped-card"; }
+		else { mpz_mul(t.Y1[j], t.Y1[j], t.X1[j2]); mpz_mod(t.Y1[j], t.Y1[j], c.A->p); mpz_mul(t.Y2[j], t.Y2[j], t.X2[j2]); mpz_mod(t.Y2[j], t.Y2[j], c.A->p); tag = "cheat:two-cards-in-one"; }
+		coins.take(); oracle_log();
+		groth_mode(c, g, (n >= 16 && !thorough) ? (int)((cidx + what) % 2) : (int)((cidx + what) % 3), t, tag, true, n >= 16 ? 0 : 2, false);
+		if (what == 0 && cidx % 2 == 0) {
+			// soundness error made visible: t_{pi(j)} = 0 takes E_j out of the last equation; all t_i = 0 take everything out
+			ZV force(n + 3); for (size_t i = 0; i < n + 3; i++) { gen_bits(force[i], g, c.le); if (i == n + 2 && !mpz_sgn(force[i])) mpz_set_ui(force[i], 1); }
+			mpz_set_ui(force[st.pi[j]], 0);
+			groth_mode(c, g, INTER, t, "lucky:t-zero-at-substituted", true, 0, false, &force);
+			for (size_t i = 0; i < n; i++) mpz_set_ui(force[i], 0);
+			groth_mode(c, g, INTER, t, "lucky:all-t-zero", true, 0, false, &force);
+		}
+	}
+	// ---- completeness error made visible (interactive mode: the harness chooses the challenges and the prover's first coins):
+	// honest prover, true statement, yet refused
+	if (cidx % 3 == 0) {
+		// (a) d_i = 0 and t_{pi(0)} = 1: f_0 = 1 is shorter than l_e bits, the verifier insists on 2^{l_e - 1} <= f_i
+		ZV force(n + 3); for (size_t i = 0; i < n + 3; i++) { gen_bits(force[i], g, c.le); if (i == n + 2 && !mpz_sgn(force[i])) mpz_set_ui(force[i], 1); }
+		mpz_set_ui(force[st.pi[0]], 1);
+		std::vector<unsigned char> ps; Z zero, v;
+		gen_below(v, g, c.A->q); script_mod(ps, v, c.A->q); gen_below(v, g, c.A->q); script_mod(ps, v, c.A->q);   // r, R_d
+		for (size_t i = 0; i < n; i++) script_mod(ps, zero, c.A->q);                                                // d_i = 0
+		groth_mode(c, g, INTER, st, "unlucky:f-short", false, 0, false, &force, &ps);
+		// (b) R_d = -sum t_{pi(i)} R_i: Z = 0, the verifier insists on 0 < Z
+		ps.clear(); Z Rd, t; for (size_t i = 0; i < n; i++) { gen_bits(force[i], g, c.le); mpz_mul(t, force[st.pi[i]], st.R[i]); mpz_sub(Rd, Rd, t); }
+		for (size_t i = 0; i < n; i++) { mpz_mul(t, force[st.pi[i]], st.R[i]); }
+		mpz_set_ui(Rd, 0); for (size_t i = 0; i < n; i++) { mpz_mul(t, force[st.pi[i]], st.R[i]); mpz_sub(Rd, Rd, t); } mpz_mod(Rd, Rd, c.A->q);
+		gen_below(v, g, c.A->q); script_mod(ps, v, c.A->q); script_mod(ps, Rd, c.A->q);
+		groth_mode(c, g, INTER, st, "unlucky:Z-zero", false, 0, false, &force, &ps);
+	}
+}
+
+
+// ---------------------------------------------------------------- the stack-level entry points of SchindelhauerTMCG
+// (public-coin with the VTMF group as CRS, and non-interactive).  With the prover's coins re-served they must write the
+// transcript of the direct call; the verifier wrappers add a membership test of the shuffled stack s2 (not of s).
+void wrapper_checks(Env &c, SplitMix &g, bool groth, Stmt &st, TMCG_Stack<VTMF_Card> &s, TMCG_Stack<VTMF_Card> &s2, TMCG_StackSecret<VTMF_CardSecret> &ss)
+{
+	if (c.own_crs) return;
+	SchindelhauerTMCG tmP(16, 2, 8), tmV(16, 2, 8);
+	size_t n = st.n; const char *nm = groth ? "groth" : "hoogh";
+	for (int mode = PC; mode <= NI; mode++) {
+		Chal ch = groth ? make_gchal(c, g, mode, n) : make_chal(c, g, mode, vrhe_nchal(n));
+		Side P = groth ? groth_prove(c, mode, st, join_lines(ch.lines)) : vrhe_prove(c, mode, st, join_lines(ch.lines));
+		c.rb_bits = 0; c.flips_possible = (mode == PC);
+		Side Pw = run_side(c, [&](std::istream &in, std::ostream &out) {
+			if (groth) { if (mode == PC) tmP.TMCG_ProveStackEquality_Groth(s, s2, ss, c.A.get(), c.gP.get(), in, out); else tmP.TMCG_ProveStackEquality_Groth_noninteractive(s, s2, ss, c.A.get(), c.gP.get(), out); }
+			else { if (mode == PC) tmP.TMCG_ProveStackEquality_Hoogh(s, s2, ss, c.A.get(), c.vP.get(), in, out); else tmP.TMCG_ProveStackEquality_Hoogh_noninteractive(s, s2, ss, c.A.get(), c.vP.get(), out); }
+			return std::string("1"); }, join_lines(ch.lines), P.raw);
+		emit(std::string("prop.args.wrapper ") + nm + " " + mode_name[mode] + " " + std::to_string(n) + " same-transcript => " + b2s(Pw.lines == P.lines && Pw.verdict == "1"));
+		auto wverify = [&](TMCG_Stack<VTMF_Card> &a, TMCG_Stack<VTMF_Card> &b) {
+			c.rb_bits = groth ? ((mode == NI) ? 2 * c.le : c.le) : 0; c.flips_possible = (mode == PC);
+			Side r = run_side(c, [&](std::istream &in, std::ostream &out) {
+				bool ok;
+				if (groth) ok = (mode == PC) ? tmV.TMCG_VerifyStackEquality_Groth(a, b, c.B.get(), c.gV.get(), in, out) : tmV.TMCG_VerifyStackEquality_Groth_noninteractive(a, b, c.B.get(), c.gV.get(), in);
+				else ok = (mode == PC) ? tmV.TMCG_VerifyStackEquality_Hoogh(a, b, c.B.get(), c.vV.get(), in, out) : tmV.TMCG_VerifyStackEquality_Hoogh_noninteractive(a, b, c.B.get(), c.vV.get(), in);
+				return b2s(ok); }, join_lines(P.lines), ch.script);
+			c.rb_bits = 0; c.flips_possible = true; return r; };
+		Side Vw = wverify(s, s2);
+		if (groth) emit_groth_verify(c, mode, st, P.lines, false, Vw, "honest"); else emit_vrhe_verify(c, mode, st, P.lines, false, Vw, "honest");
+		// a component of the INPUT stack negated (p - x: outside the group)
+		for (int comp = 0; comp < 2; comp++) {
+			size_t j = g.below(n); TMCG_Stack<VTMF_Card> sx = s; Stmt t = st;
+			if (comp == 0) { mpz_sub(sx.stack[j].c_1, c.A->p, sx.stack[j].c_1); mpz_set(t.X1[j], sx.stack[j].c_1); } else { mpz_sub(sx.stack[j].c_2, c.A->p, sx.stack[j].c_2); mpz_set(t.X2[j], sx.stack[j].c_2); }
+			Side Vt = wverify(sx, s2); std::string tag = std::string("mut:") + (groth ? (comp ? "e2" : "e1") : (comp ? "X2" : "X1")) + ":negelem-wrapper";
+			if (groth) emit_groth_verify(c, mode, t, P.lines, false, Vt, tag); else emit_vrhe_verify(c, mode, t, P.lines, false, Vt, tag);
+		}
+		// a component of the SHUFFLED stack negated: refused by the wrapper's membership test before the argument is looked at
+		{ size_t j = g.below(n); TMCG_Stack<VTMF_Card> sy = s2; mpz_sub(sy.stack[j].c_1, c.A->p, sy.stack[j].c_1);
+		  Side Vt = wverify(s, sy); emit(std::string("prop.args.wrapper ") + nm + " " + mode_name[mode] + " " + std::to_string(n) + " twisted-s2 => " + Vt.verdict); }
 	}
 }
 
@@ -449,6 +722,8 @@ std::string in_child(const std::function<std::string()> &f)
 	return r.empty() ? "trap:no-result" : r;
 }
 
+void wrapper_checks_fwd(Env &c, SplitMix &g, bool groth, Stmt &st, TMCG_Stack<VTMF_Card> &s, TMCG_Stack<VTMF_Card> &s2, TMCG_StackSecret<VTMF_CardSecret> &ss) { wrapper_checks(c, g, groth, st, s, s2, ss); }
+
 int drv_args(const Opts &o)
 {
 	SplitMix g(o.seed ^ 0xa465);
@@ -472,6 +747,7 @@ int drv_args(const Opts &o)
 			emit(std::string("args.vrhe.verify.noninteractive ") + c.pqgh() + " " + cards(st.X1, st.X2) + " " + cards(st.Y1, st.Y2) + " [] [] 0 [] [] tag:one-card => " + P.verdict);
 		}
 		vrhe_case(c, g, n, cidx, thorough);
+		{ Env d; make_env(d, g, cidx, thorough, n, true); groth_case(d, g, n, cidx, thorough); }
 	}
 	return 0;
 }
